@@ -94,3 +94,8 @@ Definition run_unified (sel : selection) (x : sections) :=
     cbo_classes s; high_coupling s; medium_coupling s; lcom_classes s; high_lcom s; medium_lcom s;
     u_total_functions e; u_total_clones e; u_clone_pairs e; u_clone_groups e],
    map qpair [average_complexity s; code_duplication s; u_avg_coupling e; u_avg_lcom e]).
+
+(* derived ratios of the unified summary recomputed from the statistics of the same report: the duplication percentage as
+   ScoreQ.code_duplication_of (what C16_unified_summary_is_projection states for code_duplication) on clone.statistics
+   (lines_analyzed, total_clone_groups); 0 when the report has no clone section. *)
+Definition run_dup (has_clone : bool) (lines groups : Z) := qpair (if has_clone then code_duplication_of lines groups else 0%Q).
